@@ -146,10 +146,11 @@ static void compare_shuffled(const std::string &cls, const std::string &cfg, con
         // formulas; anything larger means a different operator
         if (rel <= 64 * 2.220446049250313e-16) {
             vf::count("equal_up_to_summation_order." + cls + "." + cfg);
-            long long ulps = (long long)std::ceil(rel / 2.220446049250313e-16); long long &mx = vf::S().counters["max_ulps_in_summation_order_class"]; mx = std::max(mx, ulps);
+            int ulps = (int)std::ceil(rel / 2.220446049250313e-16);
+            vf::count(std::string("summation_order_class.") + (ulps <= 1 ? "le_1_ulp" : ulps <= 2 ? "le_2_ulp" : ulps <= 4 ? "le_4_ulp" : ulps <= 8 ? "le_8_ulp" : ulps <= 16 ? "le_16_ulp" : ulps <= 32 ? "le_32_ulp" : "le_64_ulp"));
             continue;
         }
-        { long long e = (long long)std::floor(-std::log10(std::min(rel, 1.0))); long long &mn = vf::S().counters["max_neg_log10_rel_diff_in_differs_class"]; mn = std::max(mn, e); }
+        { int e = (int)std::floor(-std::log10(std::min(rel, 1.0))); vf::count("differs_class.rel_diff_1e-" + std::to_string(e)); }
         if (reported++ < 2) vf::fail("shuffled." + cls + "." + cfg + ".action_differs", key, vf::KS() << "max |x_shuffled - x_sorted| / max|x_sorted| = " << rel << " | " << show(s));
     }
 }
@@ -209,6 +210,9 @@ static void run_relax() {
 #endif
 
 #ifdef P_AMG
+struct rotate_order {      // i -> i+1 mod n: not an involution for n > 2
+    template <class Matrix, class Vector> static void get(const Matrix &A, Vector &perm) { ptrdiff_t n = backend::rows(A); for (ptrdiff_t i = 0; i < n; ++i) perm[i] = (i + 1) % n; }
+};
 static double cond2(const Sys &s) {
     Eigen::MatrixXd M = Eigen::MatrixXd::Zero(s.n, s.n);
     for (int i = 0; i < s.n; ++i) for (int j = 0; j < s.n; ++j) if (s.D.st(i, j)) M(i, j) = s.D(i, j);
@@ -276,7 +280,7 @@ static void run_amg() {
     si = 0;
     for (auto &s : systems) {
         int id = si++;
-        for (const char *sv : {"cg", "bicgstab", "gmres"}) for (int what = 0; what < 3; ++what) for (int shuffled = 0; shuffled < 2; ++shuffled) {
+        for (const char *sv : {"cg", "bicgstab", "gmres"}) for (int what = 0; what < 4; ++what) for (int shuffled = 0; shuffled < 2; ++shuffled) {
             bool sym = s.name.find("(-2") == std::string::npos;
             if (!sym && std::string(sv) == "cg") continue;
             std::string key = vf::KS() << "solve|" << id << "|" << sv << "|" << what << "|" << shuffled;
@@ -290,10 +294,11 @@ static void run_amg() {
             auto A = std::tie(m.n, m.ptr, m.col, m.val);
             std::vector<double> f(m.n), x(m.n, 0.0); for (int i = 0; i < m.n; ++i) f[i] = 1 + (i * 7) % 5;
             size_t it = 0; double res = 0;
-            const char *nm = what == 0 ? "reorder.cuthill_mckee" : what == 1 ? "reorder.reverse_cuthill_mckee" : "scale_diagonal";
+            const char *nm = what == 0 ? "reorder.cuthill_mckee" : what == 1 ? "reorder.reverse_cuthill_mckee" : what == 2 ? "scale_diagonal" : "reorder.rotation";
             try {
                 if (what == 0) { adapter::reorder<reorder::cuthill_mckee<false>> perm(A); Solver solve(perm(A), p); auto F = perm(f); auto X = perm(x); std::tie(it, res) = solve(F, X); }
                 else if (what == 1) { adapter::reorder<reorder::cuthill_mckee<true>> perm(A); Solver solve(perm(A), p); auto F = perm(f); auto X = perm(x); std::tie(it, res) = solve(F, X); }
+                else if (what == 3) { adapter::reorder<rotate_order> perm(A); Solver solve(perm(A), p); auto F = perm(f); auto X = perm(x); std::tie(it, res) = solve(F, X); }
                 else { auto scale = adapter::scale_diagonal<Backend>(A); Solver solve(scale.matrix(A), p); std::tie(it, res) = solve(*scale.rhs(f), x); scale(x); }
             } catch (const std::exception &e) { vf::fail(std::string("solve.") + nm + ".throws", key, std::string(e.what()) + " | " + show(m)); continue; }
             double tr = true_resid(m, f, x), kappa = cond2(m);
@@ -306,7 +311,7 @@ static void run_amg() {
             if (!(tr <= bound)) vf::fail(std::string("solve.") + nm + ".original_system_not_solved", key, vf::KS() << "||f - A x||/||f|| = " << tr << " > " << bound << " (reported " << res << ", " << it << " iterations, kappa " << kappa << ") | " << show(m));
         }
     }
-    vf::space(vf::KS() << "reorder (CM, reverse CM) and scale_diagonal through make_solver<amg, {cg,bicgstab,gmres}>: " << systems.size() << " systems x sorted / reversed rows; true residual of the original system");
+    vf::space(vf::KS() << "reorder (CM, reverse CM, cyclic rotation) and scale_diagonal through make_solver<amg, {cg,bicgstab,gmres}>: " << systems.size() << " systems x sorted / reversed rows; true residual of the original system");
 }
 #endif
 
